@@ -34,6 +34,32 @@ CLAIMED = {
             "plus trace validation of the observed relation (reflexive/symmetric/transitive over all triples).",
             "Trusts TLC, the harness bridge; pool-bounded.",
             "§8 C14"),
+    "C03": ("Def.tla defines try/catch/finally/throw exactly as the property states; TLC enumerates every program up to "
+            "a size bound over a try/catch/finally grammar (throws from body, callee, macro, Go error return, Go panic, "
+            "handler; thrown objects of every kind) and each is replayed through lisp.EVAL",
+            "Exhaustive small-scope conformance: quick all programs <= 3 nodes (4.6k) + 4k sampled of size 5; thorough "
+            "<= 4 nodes (110k) + 50k of size 6. Compared: result or thrown object (structural, sentinel identity via "
+            "errors.Is for Go errors), effect order of body/handler/finally, catch variable not visible outside.",
+            "Trusts TLC, harness bridge; finally bodies that throw are modelled as 'outcome discarded' (as the "
+            "statement says the result is unchanged).",
+            "§8 C03"),
+    "C12": ("Def.tla defines quasiquote as template substitution and macro calls by expansion in the caller's scope; TLC "
+            "enumerates every template / macro-call program up to a size bound; replayed through lisp.EVAL (which "
+            "implements the cons/concat/vec rewrite) and compared, including macroexpand and eval-of-macroexpand routes",
+            "Exhaustive small-scope conformance of two grammars (quick: 17k templates + 10k macro programs; thorough: "
+            "~200k + ~70k): value, effect order, expansion (generated symbols up to renaming).",
+            "Trusts TLC, harness bridge; position of the failure of a non-sequence splice relative to later effects is "
+            "abstained on.",
+            "§8 C12"),
+    "C02": ("Implementation-shaped TLA+ model of Go slices (GenC02.tla: heap of backing arrays, headers, in-place "
+            "append when len<cap, which builtin copies/aliases/appends) explored by TLC over all operation histories; "
+            "each history (model-dangerous ones flagged) replayed on the real code for every seed construction path, "
+            "re-reading every earlier binding after every step, final values compared with Def.tla",
+            "Exhaustive over histories of length 2 (quick) / 3 (thorough) of 21 sequence ops and 15 map ops x 18/11 "
+            "seed construction paths x {text, AST} routes.",
+            "Real slice capacities are decided by the Go runtime; the harness realises spare capacity through the "
+            "seed paths and reports the (len,cap) pairs seen.",
+            "§8 C02"),
 }
 
 NOT_YET = "check not built yet in this round (planned in DESIGN.md §8; the specification module exists or is in progress)"
